@@ -726,6 +726,11 @@ func runSidecar(a Args) *Result {
 				res.ImplViol = capViol(res.ImplViol, Violation{Property: p, Clause: cl, Signature: p + "/" + cl,
 					What: fmt.Sprintf("Spec.SC.%s clause %s false on the real sidecar (%s)", p, cl, v), Case: full}, 3)
 			}
+			// the idle-since instant a shard reports is what the coordinator's scale-down trusts (C07)
+			if p == "C10" && strings.HasPrefix(v, "idle") && a.wants("C07") {
+				res.ImplViol = capViol(res.ImplViol, Violation{Property: "C07", Clause: "idleSince", Signature: "C07/idleSince",
+					What: fmt.Sprintf("the idle-since instant the real sidecar reports is not the instant its assignment became empty (Spec.SC.C10 clause %s)", v), Case: full}, 3)
+			}
 		}
 	}
 	res.Distinct = len(distinct)
